@@ -366,6 +366,17 @@ def design_tree(r, name):
             continue
         paths.append(p)
         tynames[p] = "T" + "".join(s.capitalize() for s in p)
+    # siblings whose names are textual prefixes of one another (`base` / `base2`), to be laid out next to each other
+    pair = None
+    if r.random() < 0.25:
+        parent = r.choice([q for q in paths if len(q) < 3])
+        a, b = (r.choice([("base", "base2"), ("inn", "inner")]))
+        for seg in (a, b):
+            q = parent + (seg,)
+            if q not in paths:
+                paths.append(q)
+                tynames[q] = "T" + "".join(x.capitalize() for x in q)
+        pair = (parent + (a,), parent + (b,))
     leaves = []   # (path, member name in counterpart, flat field name, renamed?)
     k = 0
     for p in paths:
@@ -379,6 +390,10 @@ def design_tree(r, name):
             leaves.append({"path": p, "aname": f"f{k}", "sname": f"f{k}", "ren": False, "k": k})
             k += 1
     r.shuffle(leaves)
+    if pair:
+        la = [l for l in leaves if l["path"] == pair[0]]
+        lb = [l for l in leaves if l["path"] == pair[1]]
+        leaves = [l for l in leaves if l["path"] not in pair] + la + lb
     # the code groups members by their full path; a member without #[child] is a group of its own (its name)
     if not contiguous_after_sort([l["path"] if l["path"] else ("<" + l["sname"] + ">",) for l in leaves]):
         m.tags.append("interleaved-siblings")
